@@ -388,7 +388,8 @@ func (e *LocalityEndpoints) refreshWeight() {
 	} else {
 		weight = &wrapperspb.UInt32Value{}
 		for _, lbEp := range e.llbEndpoints.LbEndpoints {
-			weight.Value += lbEp.GetLoadBalancingWeight().Value
+			// saturate rather than wrap, as generate does when summing the same members
+			weight.Value, _ = addUint32(weight.Value, lbEp.GetLoadBalancingWeight().Value)
 		}
 	}
 	e.llbEndpoints.LoadBalancingWeight = weight
